@@ -567,6 +567,26 @@ impl Exec {
             // replica; everything afterwards must still agree
             rep.count(if clock_fails { "clock.source_failure" } else { "rule.unwind" });
             rep.unjudged += 1;
+            // residue probes: whatever the lost evaluation had bound before it unwound must not be visible to a
+            // later one-shot evaluation - the names left of its '=' signs, evaluated as one-shot texts, read the
+            // same on the long-lived calculator as on a replica that never saw the lost text
+            let mut asked = 0;
+            for line in rendered.iter() {
+                if asked >= 3 { break; }
+                let lhs = match line.split_once('=') { Some((l, _)) => l.trim(), None => continue };
+                if lhs.is_empty() || lhs.len() > 60 { continue; }
+                asked += 1;
+                let (a, _) = self.l.execute(lang, lhs, &ClockScript::Frozen { t });
+                let rid = self.ids[self.oneshot_rr % self.ids.len()];
+                let (b, _) = self.reps.get_mut(&rid).unwrap().execute(lang, lhs, &ClockScript::Frozen { t });
+                rep.evaluations += 2;
+                if matches!(a, CallObs::Unwound(_)) || matches!(b, CallObs::Unwound(_)) { rep.unjudged += 1; continue; }
+                rep.judged += 1;
+                rep.count("probe.residue_after_unwound_oneshot");
+                if a != b {
+                    rep.violate("O-projection", format!("{}residue-after-unwound-oneshot", tag), ei, format!("after the one-shot text {:?} was lost to an injected unwind, the one-shot text {:?} gives {} on the long-lived calculator but {} on replica {} which never saw the lost text", full, lhs, a.short(), b.short(), rid));
+                }
+            }
             return;
         }
         let rid = self.ids[self.oneshot_rr % self.ids.len()];
